@@ -56,6 +56,7 @@ def main():
     import py2lean
     try:
         gen_tables.write_if_changed("PyFuns.lean", gen_tables.gen_pyfuns())
+        gen_tables.write_if_changed("DualHelpers.lean", gen_tables.gen_dual_helpers())
     except py2lean.Untranslatable as e:
         run.proof_broken.append(f"translator:_slice_indices:{e}")
     # 2. proofs
